@@ -38,7 +38,7 @@ def plan(tier, seed):
 
 
 def mandatory(tier):
-    return ["ac/True", "ac/False", "D/2", "D/3", "compose_affine", "batch>1", "bracket", "bch_commuting", "bch_noncommuting", "logv"] + [f"bch_terms/{k}" for k in range(6)]
+    return ["ac/True", "ac/False", "D/2", "D/3", "compose_affine", "batch>1", "bracket", "bch_commuting", "bch_noncommuting", "bch_series_terms", "bracket/options/sigma", "bracket/options/sigma+spacing", "bracket/options/spacing", "logv"] + [f"bch_terms/{k}" for k in range(6)]
 
 
 def to_samples(w, shape, ac):
@@ -102,8 +102,11 @@ def run_item(ctx, item):
         a2 = torch.tensor(F.smooth_field(rng, shape, ac, 1.0)[None], dtype=torch.float64)
         b1 = torch.tensor(F.smooth_field(rng, shape, ac, 1.0)[None], dtype=torch.float64)
         al, be = float(rng.normal()), float(rng.normal())
-        for mode in (None, "central", "forward", "sobel"):
-            kw = dict(mode=mode) if mode else {}
+        sp = tuple(float(x) for x in rng.uniform(0.3, 1.5, size=D))
+        for mode, extra in ((None, {}), ("central", {}), ("forward", {}), ("sobel", {}), (None, {"sigma": float(rng.uniform(0.6, 1.2))}), ("central", {"sigma": 0.8, "spacing": sp}), (None, {"spacing": sp})):
+            kw = dict(mode=mode, **extra) if mode else dict(extra)
+            ctx.bucket("bracket/options/" + "+".join(sorted(extra)) if extra else "bracket/options/none")
+            mode = f"{mode}{sorted(extra)}" if extra else mode
             l12 = U.lie_bracket(al * a1 + be * a2, b1, **kw)
             lin = al * U.lie_bracket(a1, b1, **kw) + be * U.lie_bracket(a2, b1, **kw)
             s = float(lin.abs().max()) + 1e-12
@@ -122,6 +125,10 @@ def run_item(ctx, item):
             ctx.bucket(f"bch_terms/{k}")
             w = U.compose_svfs(ca * base, cb * base, bch_terms=k)
             ctx.close("bch_of_commuting_fields_is_sum", w, (ca + cb) * base, (1e-10 if dtype == torch.float64 else 1e-5) * (1 + float(base.abs().max())), key="bch/commuting", bch_terms=k, **info)
+        sg = float(rng.uniform(0.6, 1.2))
+        for k in range(6):  # derivative options are passed to every bracket alike: commuting fields stay commuting
+            w = U.compose_svfs(ca * base, cb * base, bch_terms=k, sigma=sg, mode=["central", "sobel", None][k % 3])
+            ctx.close("bch_of_commuting_fields_is_sum_with_options", w, (ca + cb) * base, (1e-10 if dtype == torch.float64 else 1e-5) * (1 + float(base.abs().max())), key="bch/commuting", bch_terms=k, sigma=sg, **info)
         try:
             U.compose_svfs(base, base, bch_terms=-1)
             ctx.true("negative_bch_terms_rejected", False, key="bch/validation")
@@ -155,6 +162,25 @@ def run_item(ctx, item):
             for k in range(1, 6):
                 ctx.true("bch_error_does_not_grow_with_order", errs[k] <= 1.05 * errs[k - 1] + 2e-3, key="bch/error_growth", bch_terms=k, errs=errs, smooth_shape=list(sshape), **info)
             ctx.true("bch_first_term_improves_on_sum", errs[1] <= errs[0] + 2e-3, key="bch/error_growth", errs=errs, **info)
+            # the series itself (documented for orders 1-3; order 4 of the BCH formula is -1/24 [u, [v, [v, u]]], which the
+            # library includes half at bch_terms=4 and completely at 5): increments between truncation orders, with
+            # the brackets evaluated by the library's own lie_bracket (bilinearity / antisymmetry checked above,
+            # values against analytic Jacobians in C12)
+            ctx.bucket("bch_series_terms")
+            lb = lambda a, b: U.lie_bracket(a, b, spacing=spacing)  # noqa: E731
+            ws = [U.compose_svfs(fu, fv, bch_terms=k, spacing=spacing) for k in range(6)]
+            vu = lb(fv, fu)
+            vvu = lb(fv, vu)
+            t4 = lb(fu, vvu).mul(-1 / 24)
+            terms = {1: vu.mul(0.5), 2: lb(fv, vu).mul(1 / 12), 3: lb(fu, vu).mul(-1 / 12)}
+            for k in (1, 2, 3):
+                sc = float(terms[k].abs().max()) + 1e-14
+                ctx.close("bch_increment_is_documented_term", ws[k] - ws[k - 1], terms[k], 1e-9 * sc + 1e-15, key="bch/series", bch_terms=k, **info)
+            sc = float(t4.abs().max()) + 1e-14
+            ctx.close("bch_fourth_order_term_complete_at_5", ws[5] - ws[3], t4, 1e-9 * sc + 1e-15, key="bch/series", bch_terms=5, **info)
+            d4 = (ws[4] - ws[3]).reshape(-1)
+            c4 = float((d4 * t4.reshape(-1)).sum() / (t4.reshape(-1) ** 2).sum())
+            ctx.true("bch_terms_4_is_partial_fourth_order_term", 0.0 <= c4 <= 1.0 + 1e-9 and float((d4 - c4 * t4.reshape(-1)).abs().max()) <= 1e-9 * sc + 1e-15, key="bch/series", bch_terms=4, fraction=c4, **info)
     # ---------------- (d) logv(expv(v))
     if i % 4 in (0, 1):
         with ctx.guard("logv", **info):
